@@ -1,6 +1,7 @@
 package mcp
 
 import (
+	"io"
 	"fmt"
 	"context"
 	"errors"
@@ -93,6 +94,11 @@ func zzC07Negotiate() {
 		t = &StreamableServerTransport{Stateless: true}
 	}
 	modernOK := kind == 0 || kind == 3 // 2026-07-28 is never served over SSE or a stateful HTTP endpoint
+	if vBool("wrappedInALoggingTransport") {
+		// logging what goes over a transport changes nothing about the versions it can serve (defect D30, fixed: the
+		// wrapper hid the limits of the transport inside it)
+		t = &LoggingTransport{Transport: t, Writer: io.Discard}
+	}
 	env.ss = &ServerSession{server: srv, supportedVersions: filterSupportedVersions(t)}
 	// what a session (and every discover answer built from it) holds is its own list: code that edits it — a
 	// middleware trimming the versions it advertises — must not be editing the SDK's table for every other session
